@@ -485,7 +485,11 @@ func (ex *Exec) divmod(s *Term, m *big.Int) (*Term, *Term) {
 	if pow2m {
 		r.tz = s.tz
 	}
-	ex.assume(ts.Eq(s, ts.Add(ts.Mul(mt, q), r)))
+	eq := ts.Eq(s, ts.Add(ts.Mul(mt, q), r))
+	if q.op == "var" {
+		ex.defOf[q.id] = eq
+	}
+	ex.defOf[r.id] = eq
 	ex.dmCache[key] = [2]*Term{q, r}
 	return q, r
 }
